@@ -28,7 +28,11 @@ def denote : Prov → Option Data
     | .error _ => none
   | .merged a b ow =>
     match denote a, denote b with
-    | some da, some db => some (W.mergeF da db ow).1
+    | some da, some db =>
+      -- a provenance `merged` is only ever recorded for a merge that went through
+      match W.mergeF da db ow with
+      | .ok d => some d
+      | .error _ => none
     | _, _ => none
 
 /-- the declared inputs of an operation -/
@@ -58,7 +62,10 @@ def outOf : Decl → Option (Out Data Val)
     | _, _ => none
   | .merge p1 p2 ow =>
     match denote W ps sc p1, denote W ps sc p2 with
-    | some a, some b => some (.merged (W.mergeF a b ow).1 (W.mergeF a b ow).2)
+    | some a, some b =>
+      some (match W.mergeF a b ow with
+        | .ok d => .merged d none
+        | .error c => .merged a (some c))       -- refused: the destination's data as they were, and the error class
     | _, _ => none
 end
 
